@@ -1,6 +1,8 @@
 import Girc.Drv.PureOps
 import Girc.Model.Run
 import Girc.Model.Sts
+import Girc.Spec.RefTracker
+import Girc.Spec.Conformant
 namespace Girc.Drv
 open Girc Girc.Model
 
@@ -87,6 +89,42 @@ def handleRun (op : String) (args : List String) : Option String :=
     let port ← port.toInt?; let dur ← dur.toInt?
     let (s, e) := onDialFail (nofb = "1") (expired = "1") { upgradePort := port, persistenceDuration := dur }
     pure s!"{s.upgradePort} {s.persistenceDuration} {match e with | .plain => "plain" | .stsUpgradeFailed => "sts"}"
+  | "refcmp", [c, steps] => do
+    -- the implementation model and the reference tracker on the same history: do the observations agree?
+    let cfg ← argCfg c
+    let steps ← argList steps
+    let lines := steps.filterMap fun s => match s with | 0x52 :: l => some l | _ => none
+    let events := lines.filterMap parseEvent
+    match runSteps cfg (fun _ => true) (lines.map (0x52 :: ·)) {} [] with
+    | .ok (r, _) =>
+      let o1 := Spec.observe r.cs.st
+      let o2 := Spec.Ref.observe (Spec.Ref.run cfg events)
+      let conf := Spec.conformantHistory cfg {} events
+      if !conf && o1 = o2 then pure "nonconformant-agree"
+      else if !conf then pure "nonconformant"
+      else if o1 = o2 then pure "1"
+      else
+        let part := if o1.nick ≠ o2.nick then "nick" else if o1.ident ≠ o2.ident || o1.host ≠ o2.host then "identhost"
+          else if o1.channels.map (·.1) ≠ o2.channels.map (·.1) then "channel-set"
+          else if o1.users.map (·.1) ≠ o2.users.map (·.1) then "user-set"
+          else if o1.channels ≠ o2.channels then "channels:" ++ toString (repr ((o1.channels.zip o2.channels).filter (fun p => p.1 ≠ p.2) |>.head?))
+          else if o1.users ≠ o2.users then "users:" ++ toString (repr ((o1.users.zip o2.users).filter (fun p => p.1 ≠ p.2) |>.head?))
+          else if o1.options ≠ o2.options then "options" else if o1.motd ≠ o2.motd then "motd" else "maxlen"
+        pure ("0 " ++ (part.replace "\n" " ").replace "\t" " ")
+    | .error f => pure ("fault " ++ showFault f)
+  | "confwhy", [c, steps] => do
+    let cfg ← argCfg c
+    let steps ← argList steps
+    let events := (steps.filterMap fun s => match s with | 0x52 :: l => some l | _ => none).filterMap parseEvent
+    let rec go (r : Spec.Ref) (es : List Event) (i : Nat) : String :=
+      match es with
+      | [] => "all-conformant"
+      | e :: rest => if r.conformant cfg e then go (r.step cfg e) rest (i + 1) else s!"{i} {hx (eventBytes e)}"
+    pure (go {} events 0)
+  | "srceq", [a, b] => do
+    match ← argSource a, ← argSource b with
+    | some x, some y => pure (bl (sourceEquals x y))
+    | _, _ => none
   | "parsecap", [a] => do
     let s ← arg a
     let m := parseCap s
